@@ -12,7 +12,6 @@ import (
 	"encoding/binary"
 	"fmt"
 	"math/bits"
-	"strconv"
 
 	"github.com/WICG/webpackage/go/verifh/ref/refcbor"
 )
@@ -42,6 +41,22 @@ type Response struct {
 	Body   []byte
 	Start  int
 	End    int
+}
+
+// StatusValue is the format's reading of a :status value: exactly three ASCII digits (no sign,
+// no blanks, no other digits), as a number.
+func StatusValue(st string) (int, bool) {
+	if len(st) != 3 {
+		return 0, false
+	}
+	n := 0
+	for i := 0; i < 3; i++ {
+		if st[i] < '0' || st[i] > '9' {
+			return 0, false
+		}
+		n = n*10 + int(st[i]-'0')
+	}
+	return n, true
 }
 
 // Status returns the :status pseudo field ("" if missing, "dup" marker if repeated).
@@ -408,8 +423,8 @@ func Strict(b []byte) (*Parsed, error) {
 		if cnt != 1 || len(st) != 3 {
 			return p, fmt.Errorf("response for %q: :status %q (count %d)", ex.RawURL, st, cnt)
 		}
-		if _, err := strconv.Atoi(st); err != nil {
-			return p, fmt.Errorf("response for %q: :status %q not numeric", ex.RawURL, st)
+		if _, ok := StatusValue(st); !ok {
+			return p, fmt.Errorf("response for %q: :status %q is not three ASCII digits", ex.RawURL, st)
 		}
 	}
 	if len(used) != len(spans) {
